@@ -210,8 +210,16 @@ bool runSetter(Sink &s, const std::string &id, Circuit &c, const SetterCall &sc,
 // independently (limits start at 0, non-decreasing, end at the pin count; pins name cells; Circuit::check() passes; every
 // getter index in range) and "a refused call changes nothing".
 std::string nvState(bool ok, const Circuit &c, bool wf) {
-  return std::string("nv ") + (ok ? "ok" : "throw") + (wf ? " 1" : " 0") + " L " + vh::join(c.netLimits_, " ") + " P " + vh::join(c.pinCells_, " ") + " S " +
+  std::string r = std::string("nv ") + (ok ? "ok" : "throw") + (wf ? " 1" : " 0") + " L " + vh::join(c.netLimits_, " ") + " P " + vh::join(c.pinCells_, " ") + " S " +
          std::to_string(c.pinXOffsets_.size()) + " " + std::to_string(c.pinYOffsets_.size()) + " " + std::to_string(c.netWeights_.size());
+  // what the real inline getters return, net by net (only read when the arrays are well formed: they do not check)
+  if (!wf) return r + " G ?";
+  std::vector<int> g;
+  for (int n = 0; n < c.nbNets(); ++n) {
+    g.push_back(c.nbPinsNet(n));
+    for (int i = 0; i < c.nbPinsNet(n); ++i) g.push_back(c.pinCell(n, i));
+  }
+  return r + " G " + std::to_string(c.nbNets()) + " " + vh::join(g, " ");
 }
 
 // independent evaluation of the value invariant on the real members; "" when it holds
